@@ -41,6 +41,22 @@ func litOf(c Cond) (string, bool) {
 		}
 		v = u.X
 	}
+	// slices.Contains(L, x) decides what a loop `for _, e := range L { if e == x {...} }` decides: it is
+	// read as that loop is read - the found side under the atom (L[i] == x), the other side without a
+	// condition of its own (the exit of an exhausted loop carries none either)
+	if call, isCall := v.(*ssa.Call); isCall && isCallTo(call, "slices.Contains") && len(call.Call.Args) == 2 {
+		if u, isNot := c.V.(*ssa.UnOp); isNot && u.Op == token.NOT {
+			pol = !pol
+		}
+		if !pol {
+			return "", true
+		}
+		l, r := Path(call.Call.Args[0])+"[i]", Path(call.Call.Args[1])
+		if r < l {
+			l, r = r, l
+		}
+		return "(" + l + " == " + r + ")", true
+	}
 	_, isCmp := v.(*ssa.BinOp)
 	if call, isCall := v.(*ssa.Call); isCall && isCallTo(call, "time.Time).After", "time.Time).Before", "time.Time).Equal") {
 		isCmp = true
